@@ -796,3 +796,102 @@ func (ts *TemplateSet) VarDefs(name string) map[string][]string {
 	walk(t.Root)
 	return out
 }
+
+// DotAsField rewrites the parsed template `name`, whose argument is a value V passed directly, into the calling
+// convention in which V arrives as the entry `field` of a record: `.X` (where the dot is still the argument: outside
+// range / with bodies) becomes `.field.X`, `$.X` becomes `$.field.X`, a bare `$` or root dot becomes `$.field` /
+// `.field`. The two conventions render the same text for the same V; the structure rules are written against the
+// record form. Call it after the template was type-checked as written.
+func (ts *TemplateSet) DotAsField(name, field string) {
+	t := ts.Trees[name]
+	if t == nil || t.Root == nil {
+		return
+	}
+	var fix func(n parse.Node, rebound bool) parse.Node
+	fixPipe := func(p *parse.PipeNode, rebound bool) {
+		if p == nil {
+			return
+		}
+		for _, c := range p.Cmds {
+			for i, a := range c.Args {
+				c.Args[i] = fix(a, rebound)
+			}
+		}
+	}
+	fix = func(n parse.Node, rebound bool) parse.Node {
+		switch x := n.(type) {
+		case *parse.FieldNode:
+			if !rebound {
+				x.Ident = append([]string{field}, x.Ident...)
+			}
+		case *parse.VariableNode:
+			if len(x.Ident) >= 1 && x.Ident[0] == "$" {
+				x.Ident = append([]string{"$", field}, x.Ident[1:]...)
+			}
+		case *parse.DotNode:
+			if !rebound {
+				return &parse.FieldNode{NodeType: parse.NodeField, Pos: x.Pos, Ident: []string{field}}
+			}
+		case *parse.PipeNode:
+			fixPipe(x, rebound)
+		case *parse.ChainNode:
+			x.Node = fix(x.Node, rebound)
+		case *parse.CommandNode:
+			for i, a := range x.Args {
+				x.Args[i] = fix(a, rebound)
+			}
+		}
+		return n
+	}
+	var walk func(l *parse.ListNode, rebound bool)
+	walk = func(l *parse.ListNode, rebound bool) {
+		if l == nil {
+			return
+		}
+		for _, n := range l.Nodes {
+			switch x := n.(type) {
+			case *parse.ActionNode:
+				fixPipe(x.Pipe, rebound)
+			case *parse.TemplateNode:
+				fixPipe(x.Pipe, rebound)
+			case *parse.IfNode:
+				fixPipe(x.Pipe, rebound)
+				walk(x.List, rebound)
+				walk(x.ElseList, rebound)
+			case *parse.RangeNode:
+				fixPipe(x.Pipe, rebound)
+				walk(x.List, true)
+				walk(x.ElseList, rebound)
+			case *parse.WithNode:
+				fixPipe(x.Pipe, rebound)
+				walk(x.List, true)
+				walk(x.ElseList, rebound)
+			}
+		}
+	}
+	walk(t.Root, false)
+}
+
+// ArgIsGo reports whether every call site of template `name` passes a Go value of the named struct type (or a pointer
+// to it) directly, not a record.
+func (ts *TemplateSet) ArgIsGo(name, typeName string) bool {
+	cs := ts.CallSites[name]
+	if len(cs) == 0 {
+		return false
+	}
+	for _, c := range cs {
+		g, ok := c.Arg.(GoT)
+		if !ok {
+			return false
+		}
+		t := g.T
+		if pt, isP := t.(*types.Pointer); isP {
+			t = pt.Elem()
+		}
+		nt, isN := t.(*types.Named)
+		if !isN || nt.Obj().Name() != typeName {
+			return false
+		}
+	}
+	return true
+}
